@@ -13,9 +13,11 @@ import (
 	"os/exec"
 	"path/filepath"
 	"reflect"
+	"runtime"
 	"sort"
 	"strings"
 	"sync"
+	"sync/atomic"
 	"time"
 
 	"go.uber.org/zap"
@@ -45,6 +47,15 @@ import (
 // accepting cores before, between and after it in the tee must still be written and synced.  Every sampler
 // reports its decision through its SamplerHook (c05env.samp; child processes: the events file); the
 // counter a message falls into (fnv32a mod 4096) is shipped with every call.
+// The entry the terminal action works on (c06case.Noise, hooks of kind 6): CheckedEntries are recycled through a
+// sync.Pool, and the terminal action reads the *CheckedEntry it is handed (WriteThenPanic panics with ce.Message, a
+// custom hook may switch on ce.Level).  Hooks of kind 6 first log through an unrelated logger - several calls, each
+// with a marshaler that logs once more, so that the pool's per-P slot is cycled - and yield, only then read
+// ce.Level / ce.Message / ce.LoggerName and delegate to WriteThenPanic / WriteThenGoexit / WriteThenFatal or switch
+// on ce.Level; in cases with Noise the zap.Hooks entry hooks, the sinks and a marshaler among the fields of the
+// entry do the same before they look at anything, and (Conc) another goroutine logs on yet another logger all the
+// while, also under GOMAXPROCS(1) where every runtime.Gosched() of a hook hands the processor to it.  What every
+// entry hook was handed and what a custom terminal hook found in the entry is shipped in the observation (seen).
 // Wire format: see coq/theories/C06/Model.v.
 
 type c06method struct{ Recv, Kind, Suffix int }
@@ -133,15 +144,134 @@ func c06table(c *Ctx) []c06method {
 
 // ---------- configuration ----------
 type c06hook struct {
-	Kind int // 0 nil, 1 WriteThenNoop, 2 WriteThenGoexit, 3 WriteThenPanic, 4 WriteThenFatal, 5 custom
+	Kind int // 0 nil, 1 WriteThenNoop, 2 WriteThenGoexit, 3 WriteThenPanic, 4 WriteThenFatal, 5 custom, 6 custom that logs first
 	K    int
+	// kind 6: what the hook does after it has logged through the unrelated logger and read the entry:
+	// 0 return, 1 WriteThenPanic.OnWrite(ce, fields), 2 WriteThenGoexit.OnWrite, 3 switch ce.Level
+	// (Fatal: Goexit; Panic, DPanic: panic(ce.Message); otherwise return), 4 WriteThenFatal.OnWrite
+	Mode int
 }
 
 func (h c06hook) sx() SX {
-	if h.Kind == 5 {
+	switch h.Kind {
+	case 5:
 		return L(I(5), I(h.K))
+	case 6:
+		return L(I(6), I(h.K), I(h.Mode))
 	}
 	return L(I(h.Kind))
+}
+
+// exits reports whether the hook ends the process
+func (h c06hook) exits() bool { return h.Kind == 4 || (h.Kind == 6 && h.Mode == 4) }
+
+// c06noise: the logger is Named(Name); hooks of kind 6, entry hooks, sinks and the marshaler of calls with N make
+// Nested log calls through an unrelated logger and Yields runtime.Gosched() calls before they look at anything;
+// Conc: 1 = another goroutine logs on yet another logger while the calls of the case run, 2 = under GOMAXPROCS(1)
+//
+// Conc 3 / 4 (class stress; 4 = under GOMAXPROCS(1)): the calls of the case themselves run concurrently - on
+// 2 x GOMAXPROCS goroutines, each call Reps times, next to as many goroutines that log on another logger - for at
+// most Millis milliseconds; of the outcomes of one call the one that is not a panic with the call's message is
+// shipped if there was one, else the first (Reps and Millis are on the wire for the replay only).
+type c06noise struct {
+	Name   string
+	Nested int
+	Yields int
+	Conc   int
+	Reps   int
+	Millis int
+}
+
+func (n *c06noise) sx() SX {
+	if n.Conc >= 3 {
+		return L(Str(n.Name), I(n.Nested), I(n.Yields), I(n.Conc), I(n.Reps), I(n.Millis))
+	}
+	return L(Str(n.Name), I(n.Nested), I(n.Yields), I(n.Conc))
+}
+
+// the unrelated loggers of the running case (nil: nobody logs in between)
+type c06noiseRT struct {
+	aux, inner     *zap.Logger
+	nested, yields int
+}
+
+var c06nz *c06noiseRT
+
+func c06discardLogger(name string) *zap.Logger {
+	enc := zapcore.NewJSONEncoder(zap.NewProductionEncoderConfig())
+	return zap.New(zapcore.NewCore(enc, zapcore.AddSync(io.Discard), zapcore.DebugLevel)).Named(name)
+}
+
+// c06nestObj logs while the entry of another log call is being encoded (a log call inside a log call)
+type c06nestObj struct{}
+
+func (c06nestObj) MarshalLogObject(enc zapcore.ObjectEncoder) error {
+	if nz := c06nz; nz != nil {
+		nz.inner.Warn("inner aux message")
+	}
+	enc.AddInt("x", 1)
+	return nil
+}
+
+// c06disturb: what hooks, sinks and marshalers do before they look at anything
+func c06disturb() {
+	nz := c06nz
+	if nz == nil {
+		return
+	}
+	for i := 0; i < nz.nested; i++ {
+		nz.aux.Info("aux message", zap.Int("i", i), zap.Object("o", c06nestObj{}))
+	}
+	for i := 0; i < nz.yields; i++ {
+		runtime.Gosched()
+	}
+}
+
+// c06noisyObj: a field of the entry itself whose marshaler logs (it runs while an IO core encodes the entry)
+type c06noisyObj struct{}
+
+func (c06noisyObj) MarshalLogObject(enc zapcore.ObjectEncoder) error {
+	c06disturb()
+	enc.AddInt("y", 2)
+	return nil
+}
+
+type c06noisySink struct{ inner zapcore.WriteSyncer }
+
+func (s c06noisySink) Write(p []byte) (int, error) { c06disturb(); return s.inner.Write(p) }
+func (s c06noisySink) Sync() error                 { c06disturb(); return s.inner.Sync() }
+
+// c06startNoise sets up the unrelated loggers and the other goroutine of a case; the function returned ends them
+func c06startNoise(n *c06noise) func() {
+	if n == nil {
+		return func() {}
+	}
+	c06nz = &c06noiseRT{aux: c06discardLogger("aux"), inner: c06discardLogger("aux.inner"), nested: n.Nested, yields: n.Yields}
+	if n.Conc == 0 || n.Conc >= 3 {
+		return func() { c06nz = nil }
+	}
+	procs := 0
+	if n.Conc == 2 {
+		procs = runtime.GOMAXPROCS(1)
+	}
+	var stop atomic.Bool
+	done := make(chan struct{})
+	bg := c06discardLogger("bg")
+	go func() {
+		defer close(done)
+		for i := 0; !stop.Load(); i++ {
+			bg.Info("background", zap.Int("i", i))
+			runtime.Gosched()
+		}
+	}()
+	return func() {
+		stop.Store(true)
+		<-done
+		if procs > 0 {
+			runtime.GOMAXPROCS(procs)
+		}
+		c06nz = nil
+	}
 }
 
 // A call: method, level, and how its arguments are built from a text (the message dimension).
@@ -161,6 +291,7 @@ type c06call struct {
 	V    int
 	T    []byte
 	Lens []int // sink-stack cases: the length of every Write the call handed to an IO leaf's sink (from the run)
+	N    bool  // Logger and SugaredLogger.*w: one more field, whose marshaler logs (c06noisyObj)
 }
 
 func (cl c06call) text() string {
@@ -176,21 +307,29 @@ func (cl c06call) args() []interface{} {
 	formatted := cl.M.Suffix == 1 || (cl.M.Recv == 4 && cl.V>>1 == 2)
 	switch {
 	case cl.M.Recv == 0: // Logger: msg, fields...
+		var extra []interface{}
+		if cl.N {
+			extra = []interface{}{zap.Object("nz", c06noisyObj{})}
+		}
 		switch cl.A {
 		case 1:
-			return []interface{}{t}
+			return append([]interface{}{t}, extra...)
 		case 2:
-			return []interface{}{t, zap.Int("f", 1), zap.Any("n", nil)}
+			return append([]interface{}{t, zap.Int("f", 1), zap.Any("n", nil)}, extra...)
 		}
-		return []interface{}{t, zap.Int("f", 1)}
+		return append([]interface{}{t, zap.Int("f", 1)}, extra...)
 	case cl.M.Recv == 1 && cl.M.Suffix == 2: // SugaredLogger.*w: msg, keysAndValues...
+		var extra []interface{}
+		if cl.N {
+			extra = []interface{}{"nz", c06noisyObj{}}
+		}
 		switch cl.A {
 		case 1:
-			return []interface{}{t}
+			return append([]interface{}{t}, extra...)
 		case 2:
-			return []interface{}{t, "k", nil, zap.Int("f", 1)}
+			return append([]interface{}{t, "k", nil, zap.Int("f", 1)}, extra...)
 		}
-		return []interface{}{t, "k", 1}
+		return append([]interface{}{t, "k", 1}, extra...)
 	case formatted:
 		switch cl.A {
 		case 1:
@@ -272,6 +411,9 @@ func (cl c06call) sx() SX {
 	if len(cl.T) > 2048 {
 		how = L(I(cl.A), I(cl.V), Str(fmt.Sprintf("%d bytes", len(cl.T)))) // replay only
 	}
+	if cl.N {
+		how = L(I(cl.A), I(cl.V), Str(cl.text()), I(1))
+	}
 	lens := make([]SX, len(cl.Lens))
 	for i, n := range cl.Lens {
 		lens[i] = I(n)
@@ -291,8 +433,9 @@ type c06case struct {
 	OnFatal c06hook
 	Child   bool
 	Calls   []c06call
-	Variant int // how nil hooks are spelled: 0 no option, 1 explicit nil / OnFatal
-	Stacks  []*c06ws // nil, or for every leaf (pre-order) what sits between the IO core and its recording sinks
+	Variant int       // how nil hooks are spelled: 0 no option, 1 explicit nil / OnFatal
+	Stacks  []*c06ws  // nil, or for every leaf (pre-order) what sits between the IO core and its recording sinks
+	Noise   *c06noise // nil, or who logs in between (and the logger's name)
 }
 
 // ---------- sink stacks ----------
@@ -335,8 +478,8 @@ func wsBuf(size int, k *c06ws) *c06ws { return &c06ws{Kind: 1, Size: size, Kids:
 func wsStopped(size int, k *c06ws) *c06ws {
 	return &c06ws{Kind: 1, Size: size, Stopped: true, Kids: []*c06ws{k}}
 }
-func wsLock(k *c06ws) *c06ws     { return &c06ws{Kind: 2, Kids: []*c06ws{k}} }
-func wsAddSync(k *c06ws) *c06ws  { return &c06ws{Kind: 3, Kids: []*c06ws{k}} }
+func wsLock(k *c06ws) *c06ws      { return &c06ws{Kind: 2, Kids: []*c06ws{k}} }
+func wsAddSync(k *c06ws) *c06ws   { return &c06ws{Kind: 3, Kids: []*c06ws{k}} }
 func wsMulti(ks ...*c06ws) *c06ws { return &c06ws{Kind: 4, Kids: ks} }
 
 // a recording sink: Write only stages the bytes, Sync commits them (a bufio.Writer over a file, a
@@ -434,10 +577,10 @@ func (st *c06stack) build(d *c06ws, mkFile func(k int) *os.File) zapcore.WriteSy
 // the top of a stack: what the IO core writes to.  Records the Write / Sync events of the leaf
 // (as c05sink does) and the bytes.
 type c06top struct {
-	env   *c05env
-	st    *c06stack
-	lens  *[]int
-	onEv  func(kind int, p []byte)
+	env  *c05env
+	st   *c06stack
+	lens *[]int
+	onEv func(kind int, p []byte)
 }
 
 func (t *c06top) Write(p []byte) (int, error) {
@@ -534,14 +677,17 @@ func (cs *c06case) input() SX {
 	for i, cl := range cs.Calls {
 		calls[i] = cl.sx()
 	}
-	if cs.Stacks == nil {
+	if cs.Stacks == nil && cs.Noise == nil {
 		return L(fromJ(cs.Tree).sx(), L(cells...), Bool(cs.Dev), cs.OnPanic.sx(), cs.OnFatal.sx(), Bool(cs.Child), L(calls...))
 	}
 	stacks := make([]SX, len(cs.Stacks))
 	for i, d := range cs.Stacks {
 		stacks[i] = d.sx()
 	}
-	return L(fromJ(cs.Tree).sx(), L(cells...), Bool(cs.Dev), cs.OnPanic.sx(), cs.OnFatal.sx(), Bool(cs.Child), L(calls...), L(stacks...))
+	if cs.Noise == nil {
+		return L(fromJ(cs.Tree).sx(), L(cells...), Bool(cs.Dev), cs.OnPanic.sx(), cs.OnFatal.sx(), Bool(cs.Child), L(calls...), L(stacks...))
+	}
+	return L(fromJ(cs.Tree).sx(), L(cells...), Bool(cs.Dev), cs.OnPanic.sx(), cs.OnFatal.sx(), Bool(cs.Child), L(calls...), L(stacks...), cs.Noise.sx())
 }
 
 func c06leafIDs(n *c05node, out *[]int) {
@@ -558,21 +704,61 @@ func c06leafIDs(n *c05node, out *[]int) {
 func (cs *c06case) expectExit(l int8) bool {
 	switch {
 	case l == 5:
-		return cs.OnFatal.Kind == 0 || cs.OnFatal.Kind == 1 || cs.OnFatal.Kind == 4
+		return cs.OnFatal.Kind == 0 || cs.OnFatal.Kind == 1 || cs.OnFatal.exits()
 	case l == 4 || (l == 3 && cs.Dev):
-		return cs.OnPanic.Kind == 4
+		return cs.OnPanic.exits()
 	}
 	return false
 }
 
-type c06custom struct {
-	k  int
-	fn func(k int)
+// what the hooks of a run report to
+type c06rt struct {
+	custom func(k int)                             // a custom terminal hook (kind 5 or 6) runs
+	hook6  func(k int)                             // ... of kind 6
+	saw    func(l zapcore.Level, msg, name string) // the entry an entry hook was handed / a custom terminal hook found
 }
 
-func (h c06custom) OnWrite(*zapcore.CheckedEntry, []zapcore.Field) { h.fn(h.k) }
+// a custom terminal hook: looks at the entry it is handed, at once
+type c06custom struct {
+	k  int
+	rt *c06rt
+}
 
-func c06hookOpt(h c06hook, fatal bool, variant int, custom func(int)) []zap.Option {
+func (h c06custom) OnWrite(ce *zapcore.CheckedEntry, _ []zapcore.Field) {
+	h.rt.saw(ce.Level, ce.Message, ce.LoggerName)
+	h.rt.custom(h.k)
+}
+
+// a custom terminal hook of the usual shape: announce / flush through some logger, then look at the entry and fall
+// through to one of zap's actions, or decide from the entry's level (one object for WithPanicHook and WithFatalHook)
+type c06logHook struct {
+	k, mode int
+	rt      *c06rt
+}
+
+func (h c06logHook) OnWrite(ce *zapcore.CheckedEntry, fields []zapcore.Field) {
+	c06disturb()
+	h.rt.saw(ce.Level, ce.Message, ce.LoggerName)
+	h.rt.hook6(h.k)
+	h.rt.custom(h.k)
+	switch h.mode {
+	case 1:
+		zapcore.WriteThenPanic.OnWrite(ce, fields)
+	case 2:
+		zapcore.WriteThenGoexit.OnWrite(ce, fields)
+	case 3:
+		switch ce.Level {
+		case zapcore.FatalLevel:
+			runtime.Goexit()
+		case zapcore.PanicLevel, zapcore.DPanicLevel:
+			panic(ce.Message)
+		}
+	case 4:
+		zapcore.WriteThenFatal.OnWrite(ce, fields)
+	}
+}
+
+func c06hookOpt(h c06hook, fatal bool, variant int, rt *c06rt) []zap.Option {
 	var hook zapcore.CheckWriteHook
 	switch h.Kind {
 	case 0:
@@ -589,8 +775,10 @@ func c06hookOpt(h c06hook, fatal bool, variant int, custom func(int)) []zap.Opti
 			return []zap.Option{zap.OnFatal(act)}
 		}
 		hook = act
+	case 6:
+		hook = c06logHook{h.K, h.Mode, rt}
 	default:
-		hook = c06custom{h.K, custom}
+		hook = c06custom{h.K, rt}
 	}
 	if fatal {
 		return []zap.Option{zap.WithFatalHook(hook)}
@@ -719,22 +907,120 @@ func c06guarded(f func(), atEnd func()) c06outcome {
 	return <-ch
 }
 
-func c06logger(cs *c06case, env *c05env, custom func(int)) *zap.Logger {
+func c06logger(cs *c06case, env *c05env, rt *c06rt) *zap.Logger {
+	// every zap.Hooks entry hook reports the Entry it was handed (after logging itself, in cases with Noise)
+	env.onEntry = func(_ int, e zapcore.Entry) {
+		c06disturb()
+		rt.saw(e.Level, e.Message, e.LoggerName)
+	}
+	if cs.Noise != nil {
+		mk := env.mkSink
+		env.mkSink = func(id int) zapcore.WriteSyncer {
+			if mk != nil {
+				return c06noisySink{mk(id)}
+			}
+			return c06noisySink{&c05sink{env, id}}
+		}
+	}
 	core := env.build(fromJ(cs.Tree))
 	var opts []zap.Option
 	if cs.Dev {
 		opts = append(opts, zap.Development())
 	}
-	opts = append(opts, c06hookOpt(cs.OnPanic, false, cs.Variant, custom)...)
-	opts = append(opts, c06hookOpt(cs.OnFatal, true, cs.Variant, custom)...)
-	return zap.New(core, opts...)
+	opts = append(opts, c06hookOpt(cs.OnPanic, false, cs.Variant, rt)...)
+	opts = append(opts, c06hookOpt(cs.OnFatal, true, cs.Variant, rt)...)
+	lg := zap.New(core, opts...)
+	if cs.Noise != nil && cs.Noise.Name != "" {
+		lg = lg.Named(cs.Noise.Name)
+	}
+	return lg
+}
+
+// the outcome of one call as the observation spells it
+func (o c06outcome) term() SX {
+	switch {
+	case o.returned:
+		return L()
+	case o.panicked != nil:
+		if s, ok := o.panicked.(string); ok {
+			return L(I(0), Str(s)) // the oracle compares the value with the message
+		}
+		return L(I(9), Str(fmt.Sprint(o.panicked))) // a panic whose value is not a string
+	}
+	return L(I(2))
+}
+
+// c06runStress: the calls of the case - Panic-level calls with the default action (or WriteThenPanic) on a tree
+// that records nothing - run concurrently, again and again, next to goroutines that log on another logger
+func c06runStress(cs *c06case) SX {
+	env := c05newEnv(&c05case{cells: cs.Cells})
+	lg := c06logger(cs, env, &c06rt{custom: func(int) {}, hook6: func(int) {}, saw: func(zapcore.Level, string, string) {}})
+	workers := 2 * runtime.GOMAXPROCS(0)
+	single := cs.Noise.Conc == 4
+	if single {
+		defer runtime.GOMAXPROCS(runtime.GOMAXPROCS(1))
+	}
+	deadline := time.Now().Add(time.Duration(cs.Noise.Millis) * time.Millisecond)
+	var stop atomic.Bool
+	var nwg, wg sync.WaitGroup
+	for n := 0; n < workers; n++ {
+		nwg.Add(1)
+		bg := c06discardLogger(fmt.Sprintf("bg%d", n))
+		go func() {
+			defer nwg.Done()
+			for i := 0; !stop.Load(); i++ {
+				bg.Info("background", zap.Int("i", i))
+				runtime.Gosched()
+			}
+		}()
+	}
+	terms := make([]SX, len(cs.Calls))
+	for g := 0; g < workers; g++ {
+		wg.Add(1)
+		go func(g int) {
+			defer wg.Done()
+			for rep := 0; rep < cs.Noise.Reps; rep++ {
+				if rep > 0 && time.Now().After(deadline) {
+					return
+				}
+				for j := g; j < len(cs.Calls); j += workers {
+					cl := cs.Calls[j]
+					var o c06outcome
+					func() {
+						defer func() { o.panicked = recover() }()
+						c06invoke(lg, cl)
+						o.returned = true
+					}()
+					if s, ok := o.panicked.(string); terms[j] == nil || !ok || s != cl.message() {
+						terms[j] = o.term()
+					}
+					if single {
+						runtime.Gosched()
+					}
+				}
+			}
+		}(g)
+	}
+	wg.Wait()
+	stop.Store(true)
+	nwg.Wait()
+	outs := make([]SX, len(cs.Calls))
+	for j := range outs {
+		outs[j] = L(L(), terms[j], L(), L(), L())
+	}
+	return L(L(outs...), L())
 }
 
 // in-process run of all calls of a case
 func c06run(cs *c06case) SX {
+	if cs.Noise != nil && cs.Noise.Conc >= 3 {
+		return c06runStress(cs)
+	}
 	env := c05newEnv(&c05case{cells: cs.Cells})
 	env.recSync = true
-	customRan := -1
+	customRan, hook6Ran := -1, -1
+	var seen []SX
+	defer c06startNoise(cs.Noise)()
 	var stacks []*c06stack
 	var lens []int
 	if cs.Stacks != nil {
@@ -767,12 +1053,17 @@ func c06run(cs *c06case) SX {
 		}
 		pend = L(ps...)
 	}
-	lg := c06logger(cs, env, func(k int) { customRan = k; snapshot() })
+	lg := c06logger(cs, env, &c06rt{
+		custom: func(k int) { customRan = k; snapshot() },
+		hook6:  func(k int) { hook6Ran = k },
+		saw:    func(l zapcore.Level, msg, name string) { seen = append(seen, L(I(int(l)), Str(msg), Str(name))) },
+	})
 	outs := make([]SX, len(cs.Calls))
 	for i, cl := range cs.Calls {
 		env.events = env.events[:0]
 		env.samp = env.samp[:0]
-		customRan = -1
+		customRan, hook6Ran = -1, -1
+		seen = nil
 		pend = nil
 		lens = lens[:0]
 		o := c06guarded(func() { c06invoke(lg, cl) }, snapshot)
@@ -783,27 +1074,19 @@ func c06run(cs *c06case) SX {
 		for k, e := range env.events {
 			evs[k] = L(I([]int{0, 2, 1}[e.kind]), I(e.id))
 		}
-		var term SX
-		switch {
-		case customRan >= 0 && o.returned:
+		term := o.term()
+		if customRan >= 0 && o.returned && hook6Ran < 0 {
 			term = L(I(3), I(customRan))
-		case o.returned:
-			term = L()
-		case o.panicked != nil:
-			if s, ok := o.panicked.(string); ok {
-				term = L(I(0), Str(s)) // the oracle compares the value with the message
-			} else {
-				term = L(I(9), Str(fmt.Sprint(o.panicked))) // a panic whose value is not a string
-			}
-		default:
-			term = L(I(2))
+		}
+		if hook6Ran >= 0 {
+			term = L(I(4), I(hook6Ran), term) // a hook of kind 6 ran, and then ...
 		}
 		// the decisions the samplers reported through their hooks during this call
 		reps := make([]SX, len(env.samp))
 		for k, r := range env.samp {
 			reps[k] = L(I(r.k), Bool(r.dropped))
 		}
-		outs[i] = L(L(evs...), term, pend, L(reps...))
+		outs[i] = L(L(evs...), term, pend, L(reps...), L(seen...))
 	}
 	return L(L(outs...), L())
 }
@@ -869,7 +1152,12 @@ func c06child(*Ctx) {
 		}
 		fmt.Fprintf(evf, "S %d %d\n", k, d)
 	}
-	lg := c06logger(&cs, env, func(k int) { fmt.Fprintf(evf, "T 3 %d\n", k) })
+	defer c06startNoise(cs.Noise)()
+	lg := c06logger(&cs, env, &c06rt{
+		custom: func(k int) { fmt.Fprintf(evf, "T 3 %d\n", k) },
+		hook6:  func(k int) { fmt.Fprintf(evf, "H %d\n", k) },
+		saw:    func(l zapcore.Level, msg, name string) { fmt.Fprintf(evf, "E %d %x/%x\n", int(l), msg, name) },
+	})
 	cl := cs.Calls[0]
 	done := make(chan bool, 1)
 	go func() {
@@ -920,9 +1208,9 @@ func c06runChild(c *Ctx, cs *c06case) (SX, error) {
 		return nil, fmt.Errorf("child set-up failed: %s", stderr.String())
 	}
 	evb, _ := os.ReadFile(filepath.Join(dir, "events"))
-	var evs, reps []SX
+	var evs, reps, seen []SX
 	var term SX = L()
-	returned := false
+	returned, hook6 := false, -1
 	written := map[int][]byte{} // sink-stack cases: what each leaf's IO core wrote, from the events file
 	lens := []int{}
 	panicValue, havePanicValue := "", false
@@ -937,11 +1225,22 @@ func c06runChild(c *Ctx, cs *c06case) (SX, error) {
 		case strings.HasPrefix(line, "S "):
 			fmt.Sscanf(line, "S %d %d", &a, &b)
 			reps = append(reps, L(I(a), I(b)))
+		case strings.HasPrefix(line, "H "):
+			fmt.Sscanf(line, "H %d", &hook6)
+		case strings.HasPrefix(line, "E "):
+			var hx string
+			fmt.Sscanf(line, "E %d %s", &a, &hx)
+			parts := strings.SplitN(hx, "/", 2)
+			m, _ := hex.DecodeString(parts[0])
+			n, _ := hex.DecodeString(parts[1])
+			seen = append(seen, L(I(a), Str(string(m)), Str(string(n))))
 		case line == "T 2":
 			term = L(I(2))
 		case strings.HasPrefix(line, "T 3"):
 			fmt.Sscanf(line, "T 3 %d", &k)
-			term = L(I(3), I(k))
+			if hook6 < 0 {
+				term = L(I(3), I(k))
+			}
 		case line != "":
 			fmt.Sscanf(line, "%d %d", &a, &b)
 			evs = append(evs, L(I(a), I(b)))
@@ -960,6 +1259,9 @@ func c06runChild(c *Ctx, cs *c06case) (SX, error) {
 		term = L(I(0), Str(panicValue))
 	case status != 0:
 		term = L(I(9), Str(fmt.Sprintf("exit status %d: %.200s", status, stderr.String())))
+	}
+	if hook6 >= 0 {
+		term = L(I(4), I(hook6), term) // a hook of kind 6 ran, and then ...
 	}
 	var ids []int
 	c06leafIDs(fromJ(cs.Tree), &ids)
@@ -989,7 +1291,7 @@ func c06runChild(c *Ctx, cs *c06case) (SX, error) {
 			pend = append(pend, L(ps...))
 		}
 	}
-	return L(L(L(L(evs...), term, L(pend...), L(reps...))), L(fl...)), nil
+	return L(L(L(L(evs...), term, L(pend...), L(reps...), L(seen...))), L(fl...)), nil
 }
 
 // ---------- generation ----------
@@ -1032,6 +1334,26 @@ type rawSX string
 
 func (r rawSX) write(w *strings.Builder) { w.WriteString(string(r)) }
 
+// why a worker died, on one line: the runtime's "panic:" / "fatal error:" line if there is one (zap's own
+// reports on stderr - "write error: hook 3 failed" - come first and say nothing), else the end of stderr
+func c06crashReason(stderr string) string {
+	reason := stderr
+	if len(reason) > 300 {
+		reason = reason[len(reason)-300:]
+	}
+	for _, line := range strings.Split(stderr, "\n") {
+		if strings.HasPrefix(line, "panic:") || strings.HasPrefix(line, "fatal error:") {
+			reason = line
+			break
+		}
+	}
+	reason = strings.NewReplacer("\n", " | ", "\t", " ").Replace(reason)
+	if len(reason) > 300 {
+		reason = reason[:300]
+	}
+	return reason
+}
+
 func c06runInProcess(c *Ctx, plan *c06plan) (map[int]SX, map[int]SX) {
 	res, inputs := map[int]SX{}, map[int]SX{}
 	exe, err := os.Executable()
@@ -1072,7 +1394,7 @@ func c06runInProcess(c *Ctx, plan *c06plan) (map[int]SX, map[int]SX) {
 		if culprit >= len(plan.items) {
 			break
 		}
-		c.Viol(fmt.Sprintf("the process ended (%v) while an in-process case was running in which no call may exit: %.300s", runErr, stderr.String()), plan.items[culprit].cs.input())
+		c.Viol(fmt.Sprintf("the process ended (%v) while an in-process case was running in which no call may exit: %s", runErr, c06crashReason(stderr.String())), plan.items[culprit].cs.input())
 		from = culprit + 1
 		if deaths++; deaths >= 5 {
 			c.Info("worker-deaths", "5 (remaining in-process cases skipped)")
@@ -1367,6 +1689,36 @@ func c06stackCalls(table []c06method, cs *c06case, rot int) []c06call {
 	return out
 }
 
+// the calls of a case in which hooks, sinks and marshalers log before they look at the entry: every method at every
+// terminal level it can reach without ending the process, each with a message of its own (so that an entry of
+// another call cannot pass for the right one), argument shapes / std-log constructors rotating, half of the calls
+// with a marshaler that logs among the fields, and entries below the terminal levels in between
+func c06noiseCalls(table []c06method, cs *c06case, rot int) []c06call {
+	var out []c06call
+	for k, tc := range c06terminalPairs(table) {
+		if cs.expectExit(tc.L) {
+			continue
+		}
+		tc.T = []byte(fmt.Sprintf("terminal entry %d of case %d", k, rot))
+		if tc.M.Recv == 4 {
+			tc.V = (k + rot) % 8
+		} else {
+			tc.A = []int{0, 2, 0, 1}[(k+rot)%4]
+		}
+		tc.N = (k+rot)%2 == 0
+		switch (k + rot) % 5 {
+		case 0:
+			out = append(out, c06call{M: c06method{0, 2, 0}, L: 0, T: []byte(fmt.Sprintf("info %d", k)), N: true})
+		case 2:
+			out = append(out, c06call{M: c06method{1, 4, 2}, L: 2, T: []byte(fmt.Sprintf("error %d", k)), N: k%2 == 0})
+		case 3:
+			out = append(out, c06call{M: c06method{4, 0, 0}, L: 1, V: k % 8, T: []byte(fmt.Sprintf("warn %d", k))})
+		}
+		out = append(out, tc)
+	}
+	return out
+}
+
 func c06(c *Ctx) {
 	plan := c06makePlan(c, true)
 	inproc, inputs := c06runInProcess(c, plan)
@@ -1417,7 +1769,7 @@ func c06makePlan(c *Ctx, emitTable bool) *c06plan {
 		{sampN(teeN(leafN(0, thr(-1)), sampN(leafN(1, thr(0)), 0, 3), wrapN(6, sampN(teeN(leafN(2, thr(-1)), nopN()), 2, 0)), leafN(3, thr(3)), sampN(leafN(4, thr(-1)), 1, 1)), 3, 2), nil},
 	}
 	sampledShapes := []int{6, 7, 8}
-	hooks := []c06hook{{0, 0}, {1, 0}, {2, 0}, {3, 0}, {5, 7}}
+	hooks := []c06hook{{0, 0, 0}, {1, 0, 0}, {2, 0, 0}, {3, 0, 0}, {5, 7, 0}}
 	dstacks := c06directedStacks()
 	// directed, in-process: every method x level on each shape, over hook settings x development
 	for si, sh := range shapes {
@@ -1459,12 +1811,12 @@ func c06makePlan(c *Ctx, emitTable bool) *c06plan {
 					cs := &c06case{Tree: toJ(sh.t), Cells: sh.cells, Dev: true, Child: true, Variant: v % 2, Calls: []c06call{{M: m, L: l, T: []byte(c06msg)}}}
 					switch v {
 					case 1:
-						cs.OnFatal = c06hook{1, 0} // OnFatal(WriteThenNoop) must still exit
-						cs.OnPanic = c06hook{1, 0}
+						cs.OnFatal = c06hook{1, 0, 0} // OnFatal(WriteThenNoop) must still exit
+						cs.OnPanic = c06hook{1, 0, 0}
 					case 2:
-						cs.OnFatal = c06hook{5, 9} // only the fatal hook is customised
+						cs.OnFatal = c06hook{5, 9, 0} // only the fatal hook is customised
 					case 3:
-						cs.OnPanic = c06hook{5, 7} // only the panic hook is customised
+						cs.OnPanic = c06hook{5, 7, 0} // only the panic hook is customised
 					}
 					plan.add(cs, "child", "")
 				}
@@ -1492,7 +1844,7 @@ func c06makePlan(c *Ctx, emitTable bool) *c06plan {
 				sh := shapes[nchild%nshapes]
 				cs := &c06case{Tree: toJ(sh.t), Cells: sh.cells, Dev: nchild%5 != 4 || l != 3, Child: true, Variant: (nchild / nshapes) % 2, Calls: []c06call{mc}}
 				if (nchild/(2*nshapes))%3 == 1 {
-					cs.OnFatal, cs.OnPanic = c06hook{1, 0}, c06hook{1, 0}
+					cs.OnFatal, cs.OnPanic = c06hook{1, 0, 0}, c06hook{1, 0, 0}
 				}
 				nchild++
 				plan.add(cs, "child-message", "")
@@ -1514,7 +1866,7 @@ func c06makePlan(c *Ctx, emitTable bool) *c06plan {
 			}
 			cs := &c06case{Tree: toJ(sh.t), Cells: sh.cells, Dev: nsampled%7 != 6 || tc.L != 3, Child: true, Variant: nsampled % 2, Calls: []c06call{tc}}
 			if nsampled%4 == 1 {
-				cs.OnFatal, cs.OnPanic = c06hook{1, 0}, c06hook{1, 0}
+				cs.OnFatal, cs.OnPanic = c06hook{1, 0, 0}, c06hook{1, 0, 0}
 			}
 			nsampled++
 			plan.add(cs, "child-sampled", "")
@@ -1528,9 +1880,9 @@ func c06makePlan(c *Ctx, emitTable bool) *c06plan {
 	nrep := 0
 	for _, si := range append([]int{3}, sampledShapes...) {
 		sh := shapes[si]
-		for hi, hp := range []c06hook{{5, 7}, {0, 0}, {2, 0}} {
+		for hi, hp := range []c06hook{{5, 7, 0}, {0, 0, 0}, {2, 0, 0}} {
 			for _, dev := range []bool{true, false} {
-				cs := &c06case{Tree: toJ(sh.t), Cells: sh.cells, Dev: dev, OnPanic: hp, OnFatal: []c06hook{{5, 9}, {2, 0}, {3, 0}}[(hi+nrep)%3], Variant: nrep % 2}
+				cs := &c06case{Tree: toJ(sh.t), Cells: sh.cells, Dev: dev, OnPanic: hp, OnFatal: []c06hook{{5, 9, 0}, {2, 0, 0}, {3, 0, 0}}[(hi+nrep)%3], Variant: nrep % 2}
 				if nrep%2 == 0 {
 					_, leaves, _ := sh.t.size()
 					for k := 0; k < leaves; k++ {
@@ -1565,7 +1917,7 @@ func c06makePlan(c *Ctx, emitTable bool) *c06plan {
 			for _, child := range []bool{false, true} {
 				cs := &c06case{Tree: toJ(sh.t), Cells: sh.cells, Dev: true, Child: child, Calls: []c06call{{M: c06zapio, L: l, T: []byte(c06msg)}}}
 				if !child {
-					cs.OnPanic, cs.OnFatal = c06hook{5, 7}, c06hook{5, 9}
+					cs.OnPanic, cs.OnFatal = c06hook{5, 7, 0}, c06hook{5, 9, 0}
 				}
 				env := c05newEnv(&c05case{cells: sh.cells})
 				kf := ""
@@ -1579,8 +1931,8 @@ func c06makePlan(c *Ctx, emitTable bool) *c06plan {
 	// sink stacks, in-process: compositions with leaves x directed stacks (rotating over the leaves) x hook
 	// settings under which Panic / Fatal do not end the process x development
 	stackShapes := []int{0, 3, 4, 5, 6}
-	panicHooks := []c06hook{{0, 0}, {5, 7}, {2, 0}, {1, 0}, {3, 0}}
-	fatalHooks := []c06hook{{5, 9}, {2, 0}, {3, 0}, {5, 9}, {0, 0}}
+	panicHooks := []c06hook{{0, 0, 0}, {5, 7, 0}, {2, 0, 0}, {1, 0, 0}, {3, 0, 0}}
+	fatalHooks := []c06hook{{5, 9, 0}, {2, 0, 0}, {3, 0, 0}, {5, 9, 0}, {0, 0, 0}}
 	nstack := 0
 	for di := range dstacks {
 		for _, si := range stackShapes {
@@ -1643,7 +1995,7 @@ func c06makePlan(c *Ctx, emitTable bool) *c06plan {
 				sh := shapes[[]int{0, 3, 6}[nchildStack%3]]
 				cs := &c06case{Tree: toJ(sh.t), Cells: sh.cells, Dev: true, Child: true, Variant: nchildStack % 2, Calls: []c06call{tc}}
 				if nchildStack%3 == 1 {
-					cs.OnFatal, cs.OnPanic = c06hook{1, 0}, c06hook{1, 0}
+					cs.OnFatal, cs.OnPanic = c06hook{1, 0, 0}, c06hook{1, 0, 0}
 				}
 				_, leaves, _ := sh.t.size()
 				for k := 0; k < leaves; k++ {
@@ -1652,6 +2004,95 @@ func c06makePlan(c *Ctx, emitTable bool) *c06plan {
 				plan.add(cs, "child-stack", "")
 			}
 		}
+	}
+	// ---- the entry the terminal action works on ----
+	// (hook-noise) custom hooks that log through an unrelated logger before they read the entry and delegate /
+	// dispatch, entry hooks, sinks and marshalers that do the same, another goroutine logging all the while:
+	// compositions (enabled leaf, disabled leaf, no-op core, tee with an entry hook and a sampler, lazy + entry
+	// hook, droppers around accepting leaves) x hook pairs x who logs how much x development
+	noiseShapes := []int{0, 1, 2, 3, 5, 6}
+	hookPairs := [][2]c06hook{
+		{{6, 7, 1}, {6, 9, 2}}, // announce, then WriteThenPanic / WriteThenGoexit
+		{{6, 5, 3}, {6, 5, 3}}, // one hook object for both levels that switches on ce.Level
+		{{6, 7, 0}, {6, 9, 0}}, // announce, look, return
+		{{6, 7, 2}, {6, 9, 1}}, // the panic hook ends the goroutine, the fatal hook panics with ce.Message
+		{{5, 7, 0}, {6, 9, 3}}, // a hook that looks at once; a dispatching one
+		{{0, 0, 0}, {6, 9, 2}}, // the default panic action (panic(ce.Message)) with everybody else logging
+		{{3, 0, 0}, {2, 0, 0}}, // WriteThenPanic / WriteThenGoexit spelled out
+		{{6, 7, 3}, {6, 9, 1}}, // dispatch for Panic, WriteThenPanic for Fatal
+	}
+	noises := []c06noise{
+		{Name: "main", Nested: 1, Yields: 0, Conc: 0}, {Name: "", Nested: 3, Yields: 0, Conc: 0}, {Name: "svc.db", Nested: 2, Yields: 1, Conc: 1}, {Name: "main", Nested: 0, Yields: 2, Conc: 2}, {Name: "a", Nested: 1, Yields: 1, Conc: 2}, {Name: "main", Nested: 8, Yields: 0, Conc: 0},
+		{Name: "", Nested: 0, Yields: 3, Conc: 1}, {Name: "main", Nested: 2, Yields: 2, Conc: 2},
+	}
+	nnoise := 0
+	for _, si := range noiseShapes {
+		sh := shapes[si]
+		for hi, hp := range hookPairs {
+			if !c.Thorough && (si+hi)%2 == 1 && si != 0 {
+				continue
+			}
+			nz := noises[(nnoise+hi)%len(noises)]
+			cs := &c06case{Tree: toJ(sh.t), Cells: sh.cells, Dev: nnoise%3 != 2, OnPanic: hp[0], OnFatal: hp[1], Variant: nnoise % 2, Noise: &nz}
+			if nnoise%4 == 3 {
+				_, leaves, _ := sh.t.size()
+				for k := 0; k < leaves; k++ {
+					cs.Stacks = append(cs.Stacks, dstacks[(nnoise+5*k)%len(dstacks)])
+				}
+			}
+			cs.Calls = c06noiseCalls(table, cs, nnoise)
+			nnoise++
+			plan.add(cs, "hook-noise", "")
+		}
+	}
+	// (child-hook-noise) the same hooks in real child processes, delegating to the actions that end the process:
+	// WriteThenPanic (the panic value observed from outside), WriteThenFatal (exit status 1), and the dispatching
+	// hook (panic / Goexit); every method x terminal level
+	nchn := 0
+	for _, modes := range [][2]int{{1, 4}, {3, 3}} {
+		for k, tc := range pairs {
+			if !c.Thorough && modes[0] == 3 && k%2 == 1 {
+				continue
+			}
+			tc.T = []byte(fmt.Sprintf("last words %d", nchn))
+			if tc.M.Recv == 4 {
+				tc.V = nchn % 8
+			} else {
+				tc.A = []int{0, 2}[nchn%2]
+			}
+			tc.N = nchn%3 == 0
+			sh := shapes[[]int{0, 2, 3, 1, 5}[nchn%5]]
+			nz := noises[nchn%len(noises)]
+			if nz.Nested == 0 && nz.Conc != 2 {
+				nz.Nested = 1
+			}
+			cs := &c06case{Tree: toJ(sh.t), Cells: sh.cells, Dev: true, Child: true, Variant: nchn % 2, Calls: []c06call{tc}, Noise: &nz,
+				OnPanic: c06hook{6, 7, modes[0]}, OnFatal: c06hook{6, 9, modes[1]}}
+			nchn++
+			plan.add(cs, "child-hook-noise", "")
+		}
+	}
+	// (stress) the default panic action under load, the one manifestation nobody's hook can provoke: Panic-level
+	// calls through Logger, SugaredLogger and Check+Write on 2 x GOMAXPROCS goroutines, each call with a message of
+	// its own, again and again for a bounded time next to as many goroutines that log on another logger (also all
+	// of it under GOMAXPROCS(1), everybody yielding); every panic value must be the message of its own call.  On
+	// trees that record nothing (no-op core, a leaf that is never enabled): the entry still goes through the pool
+	nstress, millis := 2, 700
+	if c.Thorough {
+		nstress, millis = 6, 5000
+	}
+	for k := 0; k < nstress; k++ {
+		nz := c06noise{Name: []string{"main", ""}[k%2], Conc: 3 + k%2, Reps: 1 << 20, Millis: millis}
+		sh := shapes[[]int{2, 1}[(k/2)%2]]
+		cs := &c06case{Tree: toJ(sh.t), Cells: sh.cells, Dev: true, OnPanic: []c06hook{{0, 0, 0}, {0, 0, 0}, {3, 0, 0}}[k%3], OnFatal: c06hook{2, 0, 0}, Variant: k % 2, Noise: &nz}
+		ms := []c06call{{M: c06method{0, 6, 0}, L: 4}, {M: c06method{1, 6, 1}, L: 4}, {M: c06method{0, 8, 0}, L: 4}, {M: c06method{1, 6, 2}, L: 4},
+			{M: c06method{0, 0, 0}, L: 4}, {M: c06method{1, 0, 3}, L: 4}, {M: c06method{0, 5, 0}, L: 3}, {M: c06method{1, 6, 0}, L: 4}}
+		for j := 0; j < 256; j++ {
+			cl := ms[j%len(ms)]
+			cl.T = []byte(fmt.Sprintf("boom %d-%d", k, j))
+			cs.Calls = append(cs.Calls, cl)
+		}
+		plan.add(cs, "stress", "")
 	}
 	// random trees and configurations, in-process
 	n := 600
@@ -1666,14 +2107,21 @@ func c06makePlan(c *Ctx, emitTable bool) *c06plan {
 		pick := func(k int) c06hook {
 			h := hooks[g.r.Intn(len(hooks))]
 			if g.r.Chance(10) {
-				h = c06hook{4, 0}
+				h = c06hook{Kind: 4}
 			}
-			if h.Kind == 5 {
+			if g.r.Chance(25) {
+				h = c06hook{Kind: 6, Mode: g.r.Intn(4)} // a hook that logs before it reads the entry and delegates
+			}
+			if h.Kind >= 5 {
 				h.K = k
 			}
 			return h
 		}
 		cs.OnPanic, cs.OnFatal = pick(11), pick(12)
+		if g.r.Chance(35) {
+			// somebody logs in between: the hooks of kind 6, entry hooks, sinks, marshalers, another goroutine
+			cs.Noise = &c06noise{Name: []string{"", "main", "a.b"}[g.r.Intn(3)], Nested: g.r.Intn(5), Yields: g.r.Intn(3), Conc: []int{0, 0, 1, 2}[g.r.Intn(4)]}
+		}
 		// half of them with a random sink stack below every leaf
 		if _, leaves, _ := t.size(); g.r.Bool() {
 			cs.Stacks = []*c06ws{}
@@ -1694,6 +2142,9 @@ func c06makePlan(c *Ctx, emitTable bool) *c06plan {
 				}
 			default:
 				continue
+			}
+			if cs.Noise != nil && g.r.Bool() {
+				cl.N = true
 			}
 			if cs.Stacks != nil && cl.M.Recv != 3 && g.r.Chance(20) {
 				// entries of all lengths around the buffer sizes
